@@ -35,7 +35,12 @@ pub enum Op {
     MaxCost { m: i64 },
     Close,
     Adv { ms: u64 },
+    AdvNs { ns: u64 },
     Settle,
+    /// facade snapshot without settling (only meaningful when the issuing client is the only writer)
+    Snap,
+    /// drop this client's handle(s): nothing may be issued by it afterwards
+    DropHandle,
 }
 
 impl Op {
@@ -53,7 +58,10 @@ impl Op {
             Op::MaxCost { m } => format!("U({})", m),
             Op::Close => "Z".into(),
             Op::Adv { ms } => format!("A({}ms)", ms),
+            Op::AdvNs { ns } => format!("A({}ns)", ns),
             Op::Settle => "S".into(),
+            Op::Snap => "?".into(),
+            Op::DropHandle => "D".into(),
         }
     }
     pub fn key(&self) -> Option<u64> {
@@ -150,6 +158,9 @@ pub struct Program {
     pub setup: Vec<Op>,
     /// thread 0 is the driver; the others are spawned client threads
     pub threads: Vec<Vec<Op>>,
+    /// run by the driver after all client threads have been joined (no settle in between)
+    #[serde(default)]
+    pub post: Vec<Op>,
 }
 impl Program {
     pub fn short(&self) -> String {
@@ -158,13 +169,16 @@ impl Program {
             s.push_str(&format!("[{}] ", ops_short(&self.setup)));
         }
         s.push_str(&self.threads.iter().map(|t| ops_short(t)).collect::<Vec<_>>().join(" | "));
+        if !self.post.is_empty() {
+            s.push_str(&format!(" then {}", ops_short(&self.post)));
+        }
         if self.flavor == Flavor::Async {
             s.push_str(" (async)");
         }
         s
     }
     pub fn keys(&self) -> Vec<u64> {
-        let mut v: Vec<u64> = self.setup.iter().chain(self.threads.iter().flatten()).filter_map(|o| o.key()).collect();
+        let mut v: Vec<u64> = self.setup.iter().chain(self.threads.iter().flatten()).chain(self.post.iter()).filter_map(|o| o.key()).collect();
         v.sort_unstable();
         v.dedup();
         v
@@ -317,6 +331,7 @@ pub enum Res {
     Val(Option<(Val, Option<u128>)>),
     /// get_ttl in ns (u128::MAX = Duration::MAX)
     Ttl(Option<u128>),
+    Int(i64),
     Err(String),
 }
 
@@ -355,6 +370,7 @@ pub struct MetricsSnap {
 #[derive(Clone, Debug)]
 pub struct Snap {
     pub at: u64,
+    pub quiescent: bool,
     pub now_ns: u128,
     pub entries: Vec<EntrySnap<Val>>,
     pub policy: PolicySnap,
@@ -620,7 +636,7 @@ impl H {
         })
     }
     /// Facade snapshot; only called at quiescent points (it takes the locks it reads under).
-    pub fn snap(&self, clock: &Arc<Mutex<u64>>) -> Snap {
+    pub fn snap(&self, clock: &Arc<Mutex<u64>>, quiescent: bool) -> Snap {
         let at = tick(clock);
         let (entries, policy, buckets) = match self {
             H::S(x) => (x.verif_entries(), x.verif_policy(), x.verif_buckets()),
@@ -628,6 +644,7 @@ impl H {
         };
         Snap {
             at,
+            quiescent,
             now_ns: rt::now_ns(),
             entries,
             policy,
